@@ -456,28 +456,21 @@ func runSim(id int, c simCase, cli, dir string) {
 		var lines []string
 		tick, lastTick := -1, -1
 		pre := ""
-		iterOpen := false // the iteration just dumped has not printed its show line yet
 		for _, l := range strings.Split(so.String(), "\n") {
 			switch {
 			case strings.HasPrefix(l, "Absolute tick:"):
 				tick, _ = strconv.Atoi(strings.TrimPrefix(l, "Absolute tick:"))
 				lastTick = tick
-				iterOpen = false
 			case strings.HasPrefix(l, "\tPre-compute IO:"):
 				pre = cells(l)
 			case strings.HasPrefix(l, "\tPost-compute IO:"):
 				lines = append(lines, fmt.Sprintf("K t=%d pre=%s post=%s", tick, pre, cells(l)))
-				iterOpen = true
 			case strings.HasPrefix(l, "\t"), l == "":
 				// processor level output (show_pc ...): not part of this check
 			default:
-				// a show line: of the iteration just dumped, else of the shutdown iteration (no dump)
-				t := lastTick + 1
-				if iterOpen {
-					t = lastTick
-				}
-				iterOpen = false
-				lines = append(lines, fmt.Sprintf("W t=%d vals=%s", t, hx(l)))
+				// a show line: of the iteration just dumped or of the shutdown iteration (which has no
+				// dump); stdout cannot tell them apart, so the line is labelled with the last dumped tick
+				lines = append(lines, fmt.Sprintf("W after=%d vals=%s", lastTick, hx(l)))
 			}
 		}
 		var csvLines []string
@@ -491,8 +484,6 @@ func runSim(id int, c simCase, cli, dir string) {
 						csvLines = append(csvLines, "C row="+rw)
 					}
 				}
-			} else {
-				csvLines = append(csvLines, "C missing")
 			}
 		}
 		cls := "ok"
@@ -704,6 +695,7 @@ func replay(path, cli, dir string) {
 				p := strings.SplitN(e, ":", 2)
 				c.edits = append(c.edits, [2]string{p[0], p[1]})
 			}
+			out.Line("# %s", qLine(c))
 			runSim(sid, c, cli, dir)
 			sid++
 		}
